@@ -71,7 +71,8 @@ class FrameAnalysis:
     summaries: {function name: set of protected parameter positions/names}: callees with their own obligation."""
 
     def __init__(self, fn, roots, attr_roots=(), own_methods=(), summaries=None, module_roots=(), interior_methods=(),
-                 pure_constructors=()):
+                 pure_constructors=(), field_roots=()):
+        self.field_roots = set(field_roots)     # instance fields `<obj>.f`: neither mutated nor rebound
         self.fn = fn
         self.roots = set(roots)
         self.attr_roots = set(attr_roots)
@@ -114,7 +115,7 @@ class FrameAnalysis:
 
     def lv_Attribute(self, e):
         v = self.level(e.value)
-        if e.attr in self.attr_roots:
+        if e.attr in self.attr_roots or e.attr in self.field_roots:
             self.mentions += 1
             return 2
         if e.attr == "__dict__" and v:
@@ -293,7 +294,7 @@ class FrameAnalysis:
     def ambiguous(self, e):
         """the object named by e is interior only on some bindings of its root name (the analysis is flow-insensitive)"""
         while isinstance(e, (ast.Attribute, ast.Subscript)):
-            if isinstance(e, ast.Attribute) and e.attr in self.attr_roots:
+            if isinstance(e, ast.Attribute) and (e.attr in self.attr_roots or e.attr in self.field_roots):
                 return False
             e = e.value
         return isinstance(e, ast.Name) and len(self.bound_levels.get(e.id, ())) > 1
@@ -333,6 +334,10 @@ class FrameAnalysis:
         b = self.level(base)
         if isinstance(target, ast.Subscript):
             self.level(target.slice)
+        if isinstance(target, ast.Attribute) and target.attr in self.field_roots:
+            self.violations.append(Finding(line, "%s the protected field %s" % ("rebinds" if what == "stores into" else what,
+                                                                              ast.unparse(target))))
+            return
         if isinstance(target, ast.Attribute) and target.attr in self.attr_roots and what == "stores into":
             # `self.attr = v` creates / rebinds the INSTANCE attribute; the shared class attribute is untouched
             # (unless the base is the class itself)
